@@ -57,6 +57,12 @@ T = {
     "C11-D": ("C11", "`if not self.root_node` treats the column label 0 as 'no root given'", "integer column labels with root_node=0 that is not the auto-picked root", ["C11"], False),
     "C12-C": ("C12", "PC stable variant drops v-side conditioning sets that contain a common neighbour", "stable variant, a pair separated only by such sets, visited as (u, v)", ["C12"], False),
     "C12-D": ("C12", "Independencies caches a frozenset of its assertions on first membership test", "an Independencies object queried, then extended with add_assertions, then given to PC", ["C12"], False),
+    "C13-C": ("C13", "back-door candidates and descendants of X computed on the observed-only subgraph", "a latent mediator X -> L -> D with D on a back-door path and the empty set not valid", ["C13"], False),
+    "C13-D": ("C13", "per-node ancestor cache in DAG cleared by add_edge only", "one model object: a d-separation / back-door question observing W, then do([W], inplace=True), then a validity test with W in Z", ["C13"], False),
+    "C14-C": ("C14", "clique potential accumulated in place into a factor of the source model", "Markov network / factor graph with a factor spanning a maximal clique plus another factor in it; second look at the source", ["C14", "C16", "C02"], False),
+    "C14-D": ("C14", "is_triangulated returns True when the graph has fewer edges than nodes", "disconnected graph: a chordless cycle plus enough tree components", ["C14"], False),
+    "C17-C": ("C17", "get_constant_bn returns a cached shared network", "get_constant_bn(), edit the returned network, get_constant_bn() again", ["C17"], False),
+    "C17-D": ("C17", "slice-0 forward message built from per-node marginals", ">= 2 dependent unobserved interface nodes and a query in slice >= 1 depending on both", ["C17"], False),
     "C17-B": ("C17", "initialize_initial_state pairs parent cardinalities with reversed parent names", "a CPD given for one slice with >= 2 same-slice parents of different cardinalities", ["C17"], True),
 }
 
